@@ -35,6 +35,7 @@ def dispatch (cfg : String) (inp : List String) (obs : List String) : Option Ver
   | some "P" => runParse cfg inp obs
   | some "P8" => runParse cfg inp obs
   | some "P9" => runParse cfg inp obs
+  | some "PU" => runParse cfg inp obs
   | some "E" => runErrStr cfg inp obs
   | some "X" => runExpr inp obs
   | some "F" => runBufFmt cfg inp obs
@@ -49,7 +50,7 @@ def project (keep : String) (dom : Option String) (toks : List String) : List St
   let pre := keep.splitOn ","
   if dom == some "R" then
     if pre.contains "regs" then toks.map (fun t => ",".intercalate ((t.splitOn ",").take 2)) else toks
-  else if dom == some "P" || dom == some "P8" || dom == some "P9" then
+  else if dom == some "P" || dom == some "P8" || dom == some "P9" || dom == some "PU" then
     toks.filter (fun t => t == "||" || pre.any (fun p => t.startsWith p))
   else toks
 
